@@ -61,6 +61,10 @@ class Ctx:
         self.viol_counts[sig] += 1
         if sum(1 for v in self.violations if v["sig"] == sig) < self.MAX_WITNESS_PER_SIG:
             v = {"sig": sig, "case": case, "why": why}
+            if getattr(self, "case_debug", False):
+                v["log_level"] = "DEBUG"  # the case ran with the package logger at DEBUG: the replay does the same
+            if getattr(self, "case_backend", None):
+                v["backend"] = self.case_backend
             v.update(extra)
             self.violations.append(v)
 
